@@ -30,7 +30,7 @@ from ..ref import corr as refc
 
 ID = 'C14'
 LEVEL = 'exploration'
-DECIDING = ['mutation_calls_checked', 'timeslices_judged', 'entries_compared', 'index_map_calls', 'repeat_calls_compared',
+DECIDING = ['mutation_calls_checked', 'timeslices_judged', 'entries_compared', 'index_map_calls', 'repeat_calls_compared', 'hardening_scenarios', 'held_results_checked',
             'tap:Corr.__add__', 'tap:Corr.__rtruediv__', 'tap:Corr.projected', 'tap:Corr.__repr__', 'tap:Corr.roll']
 RULE = ('cases: correlators with T=2..16 (matrix content: mostly T<=8, 15% up to 16), N=1..3, real (Obs) or complex (CObs) content on 1-2 replicas with strided / gapped '
         'configuration lists, undefined timeslices of kind none / padding (constructor argument) / one interior / random set; '
@@ -40,7 +40,13 @@ RULE = ('cases: correlators with T=2..16 (matrix content: mostly T<=8, 15% up to
         'arguments inside and outside the domain; (index) roll, reverse, thin, symmetric, anti_symmetric, T_symmetry, item, projected '
         '(default / ndarray / list vectors, normalize on/off), trace, matrix_symmetric, Hankel (periodic on/off) with all shift / spacing / '
         'offset / parity arguments; (matmul); (history) sequences of 6-10 operations over a pool; (misc, gevp) remaining public methods for '
-        'the mutation monitor. Every call is repeated with the same argument objects. Non-trivial: at least one defined timeslice was '
+        'the mutation monitor; (hard) hardening scenarios: the same correlator / Obs / vector object in several argument slots and matrix '
+        'positions, results held across a second wave of calls and state changes of results (set_prange, tag, gamma_method) that must not reach '
+        'the operand, selectors at and beyond their boundaries (|dt| >= T, spacing > T, offsets beyond the spacing, T = 2, 3, numpy integer '
+        'arguments, float parity), content handed over as C / Fortran / transposed / strided / reversed views, 1x1 matrices, int / float32 / '
+        'strided vectors and matrices, near-symmetric matrices at scales 1e-8 ... 1e8. Generated correlators carry at random a tag, a stored '
+        'prange, the reweighted flag, an earlier error analysis, bare chain names, an overall factor 1e-8 ... 1e8. '
+        'Every call is repeated with the same argument objects. Non-trivial: at least one defined timeslice was '
         'compared in value and fluctuations and (an operand has an undefined timeslice or the operation is not the identity). '
         'distinct = digest of (operation label, arguments, operand data).')
 ASSUMPTIONS = ['scalar overloads of Obs / CObs used by the reference on single entries are judged by C01',
@@ -49,7 +55,11 @@ ASSUMPTIONS = ['scalar overloads of Obs / CObs used by the reference on single e
                'cells outside the stated subset (CObs as left operand, ** with a correlator exponent, division by complex numbers / complex '
                'correlators, numpy integers, ndarray partners) may be rejected with TypeError / ValueError / AttributeError: counted, not judged',
                'set_prange (a setter) and private helpers are not tapped; real / imag are properties and are checked by the workload directly',
-               'central values are generated away from 0 and from the singular points of the functions']
+               'central values are generated away from 0 and from the singular points of the functions',
+               'results that share entry arrays with their operand (reverse, thin, symmetric, roll with undefined slices, __getitem__ of a matrix) '
+               'are counted (result_shares_entry_array_with_operand:*), not judged: the property forbids mutation by the methods, it does not promise copies',
+               'matrices whose asymmetry is below single precision (1e-9 relative) are a borderline decision of is_matrix_symmetric: counted, not judged',
+               'parity given as numpy integer is an open cell (the arithmetic rejects numpy integers)']
 BUDGET = {'quick': 45, 'thorough': 540}
 
 RTOL = 1e-10
@@ -421,7 +431,9 @@ class Layout:
     def __init__(self, rng, ens=None, nmin=8, nmax=12, other_than=None):
         self.ens = ens or str(rng.choice([e for e in gen.ENS_POOL if e != other_than]))
         reps = gen.rand_reps(rng, 2)
-        self.names = ['%s|%s' % (self.ens, r) for r in reps]
+        if rng.random() < 0.12:
+            reps = [None]                       # a bare chain name ('A' next to 'A1|r1', 'AB|r2' ... : prefix traps)
+        self.names = [self.ens if r is None else '%s|%s' % (self.ens, r) for r in reps]
         self.idls = []
         step = int(rng.choice([1, 1, 2, 3]))      # common spacing of all replicas of the ensemble (needed by gamma_method)
         for _ in reps:
@@ -484,17 +496,34 @@ def none_mask(rng, T, kind):
     return m, None
 
 
+SCALES = [1e-8, 1e-4, 1e4, 1e8]
+
+
 def make_corr(ctx, rng, T, N=1, content='real', mask='none', layout=None, values=None, prof=None, symmetric=False,
-              via=None):
-    """library correlator with the requested shape; the constructor result is compared with what was handed in."""
+              via=None, decorate=True, scale=True):
+    """library correlator with the requested shape; the constructor result is compared with what was handed in.
+    decorate: stored state that must not influence any result - a tag, a plateau range, the reweighted flag on every entry,
+    an earlier error analysis with non-default parameters; scale: the whole correlator multiplied by 1e-8 ... 1e8"""
     layout = layout or Layout(rng)
-    values = values if values is not None else profile(rng, T, prof or str(rng.choice(['decay', 'changing', 'mixed'])))
+    if values is None:
+        values = profile(rng, T, prof or str(rng.choice(['decay', 'changing', 'mixed'])))
+        if scale and rng.random() < 0.25:
+            sc = float(rng.choice(SCALES))
+            values = [v * sc for v in values]
+            ctx.count('scaled_correlators')
     defined, padding = none_mask(rng, T, mask)
+    rew = decorate and rng.random() < 0.12
+
+    def real_scalar(v):
+        o = layout.obs(rng, v)
+        if rew:
+            o.reweighted = True
+        return o
 
     def scalar(v):
         if content == 'complex':
-            return PE.CObs(layout.obs(rng, v), layout.obs(rng, 0.4 * v + 0.1))
-        return layout.obs(rng, v)
+            return PE.CObs(real_scalar(v), real_scalar(0.4 * v + 0.1 * abs(v)))
+        return real_scalar(v)
     entries = []
     for t in range(T):
         if not defined[t]:
@@ -532,6 +561,17 @@ def make_corr(ctx, rng, T, N=1, content='real', mask='none', layout=None, values
                 ok &= all(m[t][i][j] is src[i][j] for i in range(N) for j in range(N))
     if not ok:
         ctx.violation('constructor:content', {'T': T, 'N': N, 'mask': mask, 'got_T': c.T, 'got_N': c.N, 'pattern': refc.pattern(m)})
+    if decorate:
+        if rng.random() < 0.25:
+            c.tag = 'correlator %d' % int(rng.integers(0, 100))
+        if rng.random() < 0.25:
+            a = int(rng.integers(0, T))
+            c.set_prange([a, int(rng.integers(a, T))])
+        if rew:
+            ctx.count('reweighted_correlators')
+        if content == 'real' and rng.random() < (0.2 if N == 1 else 0.06):
+            c.gamma_method(S=float(rng.choice([1.0, 3.0])))      # stored analysis state
+            ctx.count('analysed_correlators')
     return c
 
 
@@ -553,6 +593,11 @@ def make_scalar_partner(rng, ptype, layout, positive=False, nonzero=True):
     if ptype == 'npint':
         return np.int64(int(rng.choice([1, 2, 3])))
     if ptype == 'complex':
+        k = rng.random()
+        if k < 0.15:
+            return complex(v, 0.0)               # on the real axis
+        if k < 0.3:
+            return complex(0.0, v)               # on the imaginary axis
         return complex(v, float(rng.uniform(0.3, 2.0)))
     raise ValueError(ptype)
 
@@ -672,6 +717,8 @@ def do_binop(ctx, rng, cell, mask, required):
     content, op, partner, order = cell
     N = 1 if content[1] == '1' else int(rng.integers(2, 4))
     T = int(rng.integers(2, 17)) if (N == 1 or rng.random() < 0.15) else int(rng.integers(2, 9))
+    if rng.random() < 0.12:
+        T = int(rng.choice([2, 3]))             # minimal extents
     cplx = content[0] == 'C'
     lay = Layout(rng)
     prof = str(rng.choice(['decay', 'changing', 'mixed']))
@@ -1040,7 +1087,7 @@ def do_history(ctx, rng):
     T = 2 * int(rng.integers(1, 9)) if rng.random() < 0.5 else int(rng.integers(2, 17))
     lay = Layout(rng)
     pool = [make_corr(ctx, rng, T, 1, 'real', str(rng.choice(MASKS)), lay if rng.random() < 0.7 else Layout(rng),
-                      prof=str(rng.choice(['decay', 'decay', 'mixed']))) for _ in range(3)]
+                      prof=str(rng.choice(['decay', 'decay', 'mixed'])), scale=False) for _ in range(3)]
     born = [any_digest(c) for c in pool]
     script = []
     steps = int(rng.integers(6, 11))
@@ -1147,7 +1194,8 @@ def do_misc(ctx, rng, idx):
     MA = to_model(A)
     ctx.cell('misc', mask)
     # printing with ranges (list objects owned by the caller)
-    for pr in ([0, None], [1, 3], [2, T - 1], [0, T + 3]):
+    A.set_prange([0, 1])          # a stored plateau range is not a print range
+    for pr in ([0, None], [1, 3], [2, T - 1], [0, T + 3], [2, 2], [T - 1, T - 1]):
         pr0 = list(pr)
         s1, exc = run_twice(ctx, lambda: A.__repr__(pr), [A, pr], '__repr__')
         if exc is not None:
@@ -1243,6 +1291,429 @@ def do_gevp(ctx, rng):
 
 
 # ------------------------------------------------------------------------------------------
+# hardening scenarios (HARDENING_CHECKLIST.md): input classes and histories a seeded bug may need
+def shared_entry_arrays(res, *operands):
+    """number of timeslices of res whose entry array is (or is a view on) an entry array of an operand - telemetry:
+    the property forbids mutation by the methods, it does not promise copies"""
+    n = 0
+    if not is_corr(res):
+        return 0
+    for r in res.content:
+        if r is None:
+            continue
+        for op in operands:
+            if is_corr(op) and any(o is not None and (o is r or np.shares_memory(o, r)) for o in op.content):
+                n += 1
+                break
+    return n
+
+
+def judged_call(ctx, rng, label, plabel, call, args, exp, hint=(0.0, 0.0), hints=None, context=None, operands=()):
+    res, exc = run_twice(ctx, call, args, label)
+    if exc is not None:
+        report_raise(ctx, exc, plabel, label, exp, True, context or context_of(*[to_model(a) for a in args if is_corr(a)]))
+        return None
+    n = judge_corr(ctx, res, exp, label, plabel, hint=hint, hints=hints)
+    mark_nontrivial(ctx, n, True, label, *args)
+    k = shared_entry_arrays(res, *[a for a in args if is_corr(a)])
+    if k:
+        ctx.count('result_shares_entry_array_with_operand:' + plabel, k)
+    return res
+
+
+def hard_same_operand(ctx, rng, mask):
+    """item 4: the same correlator / observable object in several argument slots"""
+    N = int(rng.choice([1, 1, 2]))
+    T = 2 * int(rng.integers(1, 7))
+    lay = Layout(rng)
+    A = make_corr(ctx, rng, T, N, str(rng.choice(['real', 'real', 'complex'])) if N == 1 else 'real', mask, lay)
+    MA = to_model(A)
+    cplx = type_label(A) == 'CorrC'
+    for op in (['+', '-', '*'] if cplx else ['+', '-', '*', '/']):
+        label = '%s(%s,same object)' % (op, type_label(A))
+        judged_call(ctx, rng, label, DUNDER[(op, 'L')], lambda op=op: OPS[op](A, A), [A], refc.binary(OPS[op], MA, MA, isnan_scalar),
+                    hints=hints_per_t(MA))
+    if not cplx:
+        judged_call(ctx, rng, '@(Corr,same object)', '__matmul__', lambda: A @ A, [A], refc.matmul(MA, MA),
+                    hint=(hint_global(MA)[0] ** 2 * N, hint_global(MA)[0] * hint_global(MA)[1] * 2 * N))
+    # an entry of the correlator as partner of the correlator itself
+    defined = [t for t in range(T) if MA[t] is not None]
+    if N == 1 and defined and not cplx:
+        y = A[defined[int(rng.integers(0, len(defined)))]]
+        for op, order in (('+', 'L'), ('*', 'R'), ('/', 'L'), ('-', 'R')):
+            left, right = (A, y) if order == 'L' else (y, A)
+            label = '%s(%s,%s) partner is an entry of the correlator' % (op, type_label(left), type_label(right))
+            judged_call(ctx, rng, label, DUNDER[(op, order)], lambda op=op, left=left, right=right: OPS[op](left, right), [left, right],
+                        refc.binary_scalar(OPS[op], MA, y, scalar_left=(order == 'R'), isnan=isnan_scalar), hints=hints_per_t(MA, y))
+    if N == 1 and not cplx:
+        for parity in (1, -1):
+            judged_call(ctx, rng, 'T_symmetry(same object)', 'T_symmetry', lambda parity=parity: A.T_symmetry(A, parity), [A],
+                        refc.T_symmetry(MA, MA, parity), hint=hint_global(MA), context='undefined-slice' if has_undefined(MA) else 'operands-defined')
+        judged_call(ctx, rng, 'correlate(same object)', 'correlate', lambda: A.correlate(A), [A],
+                    refc.unary(lambda x: PE.correlate(x, x), MA), hint=hint_global(MA))
+    ctx.cell('hard', 'same-operand', 'N=%d' % N, mask)
+
+
+def hard_same_entry(ctx, rng, mask):
+    """item 4: the same Obs object on several timeslices / at several matrix positions, the same vector object twice"""
+    lay = Layout(rng)
+    T = int(rng.integers(4, 13))
+    defined, _ = none_mask(rng, T, mask if mask != 'padding' else 'many')
+    pool = [lay.obs(rng, v) for v in profile(rng, 3, 'mixed')]
+    # single-valued: blocks of repeated objects
+    entries = [pool[(t // 2) % 3] if defined[t] else None for t in range(T)]
+    A = PE.Corr(list(entries))
+    MA = to_model(A)
+    n = int(rng.integers(1, 4))
+    for periodic in (False, True):
+        judged_call(ctx, rng, 'Hankel(repeated entries)', 'Hankel', lambda periodic=periodic: A.Hankel(n, periodic), [A],
+                    refc.hankel(MA, n, periodic), context='undefined-slice' if has_undefined(MA) else ('periodic-true' if periodic else 'periodic-false'))
+    dt = int(rng.integers(-T, T + 1))
+    judged_call(ctx, rng, 'roll(repeated entries)', 'roll', lambda: A.roll(dt), [A], refc.roll(MA, dt))
+    if T % 2 == 0:
+        judged_call(ctx, rng, 'symmetric(repeated entries)', 'symmetric', lambda: A.symmetric(), [A], refc.symmetric(MA), hint=hint_global(MA))
+    judged_call(ctx, rng, '-(Corr,Corr) repeated entries', '__sub__', lambda: A - A.roll(1), [A],
+                refc.binary(operator.sub, MA, refc.roll(MA, 1)), hints=hints_per_t(MA, refc.roll(MA, 1)))
+    # matrix: one object at every position / at mirrored positions
+    N = int(rng.integers(2, 4))
+    mats = []
+    for t in range(T):
+        if not defined[t]:
+            mats.append(None)
+            continue
+        a = np.empty((N, N), dtype=object)
+        for i in range(N):
+            for j in range(N):
+                a[i, j] = pool[(i * j + t) % 3] if rng.random() < 0.7 else pool[0]
+        mats.append(a)
+    G = PE.Corr(list(mats))
+    MG = to_model(G)
+    hg = hint_global(MG)
+    judged_call(ctx, rng, 'trace(repeated entries)', 'trace', lambda: G.trace(), [G], refc.trace(MG), hint=(hg[0] * N, hg[1] * N))
+    judged_call(ctx, rng, 'matrix_symmetric(repeated entries)', 'matrix_symmetric', lambda: G.matrix_symmetric(), [G], refc.matrix_symmetric(MG), hint=hg)
+    judged_call(ctx, rng, '@(Corr,Corr) repeated entries', '__matmul__', lambda: G @ G, [G], refc.matmul(MG, MG),
+                hint=(hg[0] ** 2 * N, hg[0] * hg[1] * 2 * N))
+    v = rng.uniform(0.3, 2.0, size=N) * rng.choice([-1.0, 1.0], size=N)
+    v0 = [float(x) for x in v]
+    normalize = bool(rng.integers(0, 2))
+    judged_call(ctx, rng, 'projected(v, v) same vector object', 'projected', lambda: G.projected(v, v, normalize), [G, v],
+                refc.projected(MG, v0, v0, normalize), hint=(hg[0] * 4 * N, hg[1] * 4 * N))
+    vl = [rng.uniform(0.3, 2.0, size=N) for _ in range(T)]
+    vl[1] = vl[0]                                            # one vector object on two timeslices
+    l0 = [[float(x) for x in w] for w in vl]
+    judged_call(ctx, rng, 'projected(list, same list object)', 'projected', lambda: G.projected(vl, vl, normalize=normalize), [G, vl],
+                refc.projected(MG, l0, l0, normalize), hint=(hg[0] * 4 * N, hg[1] * 4 * N))
+    ctx.cell('hard', 'same-entry', mask)
+
+
+def hard_held_results(ctx, rng, mask):
+    """item 5 / 7: results handed out earlier do not change when later calls are made; calls that change stored state of a
+    RESULT (set_prange, tag, gamma_method) or operate on it do not reach the operand it was derived from"""
+    T = 2 * int(rng.integers(2, 7))
+    lay = Layout(rng, nmin=10, nmax=12)
+    A = make_corr(ctx, rng, T, 1, 'real', mask, lay, scale=False)
+    if rng.random() < 0.7:
+        A.set_prange([1, T - 1])
+    y = lay.obs(rng, 1.7)
+    makers = [('reverse', lambda: A.reverse()), ('roll', lambda: A.roll(int(rng.integers(1, T)))), ('thin', lambda: A.thin(2, int(rng.integers(0, 2)))),
+              ('symmetric', lambda: A.symmetric()), ('anti_symmetric', lambda: A.anti_symmetric()), ('__add__', lambda: A + y),
+              ('__mul__', lambda: A * 2.0), ('__neg__', lambda: -A), ('__abs__', lambda: abs(A)), ('__truediv__', lambda: A / y),
+              ('__pow__', lambda: A ** 2), ('T_symmetry', lambda: A.T_symmetry(A, -1)), ('Hankel', lambda: A.Hankel(2, True)),
+              ('deriv', lambda: A.deriv('forward')), ('sin', lambda: np.sin(A)), ('__rsub__', lambda: 1.0 - A)]
+    held = []
+    dA = any_digest(A)
+    for name, mk in makers:
+        try:
+            r = mk()
+        except Exception:
+            ctx.count('held_maker_raised')
+            continue
+        held.append((name, r, any_digest(r)))
+        k = shared_entry_arrays(r, A)
+        if k:
+            ctx.count('result_shares_entry_array_with_operand:' + name, k)
+    ctx.ev()
+    if any_digest(A) != dA:
+        ctx.violation('mutation:held-results:operand-changed-while-deriving', {'pattern': refc.pattern(to_model(A))})
+        dA = any_digest(A)
+    # second wave: the same and other calls again, on the operand and on the results
+    for name, mk in makers:
+        quiet(ctx, mk, 'second-wave')
+    for name, r, d in held:
+        quiet(ctx, lambda: r + 1.0, 'second-wave')
+        quiet(ctx, lambda: -r, 'second-wave')
+        quiet(ctx, lambda: r.reverse(), 'second-wave')
+        quiet(ctx, lambda: r * r, 'second-wave')
+    for name, r, d in held:
+        ctx.ev()
+        if any_digest(r) != d:
+            ctx.violation('aliasing:%s:result-changed-by-later-calls' % name, {'T': T, 'mask': mask})
+    ctx.ev()
+    if any_digest(A) != dA:
+        ctx.violation('aliasing:operand-changed-by-calls-on-results', {'T': T, 'mask': mask})
+    # stored state of a result is its own: changing it must not reach the operand (digest covers prange, tag, data)
+    for name, r, d in held:
+        if r.N != 1:
+            continue
+        try:
+            r.set_prange([0, 1])
+            r.tag = 'changed'
+            r.gamma_method()
+        except Exception:
+            ctx.count('held_state_change_raised')
+        ctx.ev()
+        if any_digest(A) != dA:
+            ctx.violation('aliasing:%s:state-change-of-result-reaches-operand' % name,
+                          {'operand_prange': repr(A.prange), 'operand_tag': repr(A.tag)})
+            dA = any_digest(A)
+    ctx.count('held_results_checked', len(held))
+    ctx.cell('hard', 'held-results', mask)
+    ctx.nontrivial.add(digest('held', dA))
+    # the same for a matrix correlator: item / trace / projected / matrix_symmetric / timeslice views handed out earlier
+    N = int(rng.integers(2, 4))
+    G = make_corr(ctx, rng, T, N, 'real', mask, lay, scale=False)
+    dG = any_digest(G)
+    v = rng.uniform(0.5, 2.0, size=N)
+    mmakers = [('item', lambda: G.item(0, N - 1)), ('trace', lambda: G.trace()), ('projected', lambda: G.projected(v, normalize=True)),
+               ('matrix_symmetric', lambda: G.matrix_symmetric()), ('roll', lambda: G.roll(1)), ('__matmul__', lambda: G @ G),
+               ('__getitem__', lambda: [G[t] for t in range(T)]), ('__mul__', lambda: G * G)]
+    mheld = []
+    for name, mk in mmakers:
+        try:
+            r = mk()
+        except Exception:
+            ctx.count('held_maker_raised')
+            continue
+        mheld.append((name, r, any_digest(r)))
+    for name, mk in mmakers:
+        quiet(ctx, mk, 'second-wave')
+    quiet(ctx, lambda: G.gamma_method(), 'second-wave')
+    for name, r, d in mheld:
+        if is_corr(r):
+            quiet(ctx, lambda: -r, 'second-wave')
+            quiet(ctx, lambda: r.gamma_method(), 'second-wave')
+            quiet(ctx, lambda: r.reverse(), 'second-wave')
+    for name, r, d in mheld:
+        ctx.ev()
+        if any_digest(r) != d:
+            ctx.violation('aliasing:%s:result-changed-by-later-calls' % name, {'T': T, 'N': N, 'mask': mask})
+    ctx.ev()
+    if any_digest(G) != dG:
+        ctx.violation('aliasing:operand-changed-by-calls-on-results', {'T': T, 'N': N, 'mask': mask})
+    ctx.count('held_results_checked', len(mheld))
+
+
+def hard_boundary(ctx, rng, mask):
+    """item 9 / 1: selectors at and beyond their boundaries, numpy integer arguments, minimal extents"""
+    T = int(rng.choice([2, 3, 4, 5, 8, 11]))
+    lay = Layout(rng)
+    A = make_corr(ctx, rng, T, 1, 'real', mask, lay)
+    MA = to_model(A)
+    npint = [int, np.int64, np.int32][int(rng.integers(0, 3))]
+    for dt in (T, -T, 2 * T, -2 * T, T + 1, -(T + 1), 3 * T + 2, -(3 * T + 1), -1, 0):
+        d = npint(dt)
+        judged_call(ctx, rng, 'roll(|dt|>=T or negative)', 'roll', lambda d=d: A.roll(d), [A], refc.roll(MA, dt))
+    for spacing, offset in ((T + 1, 0), (2 * T + 3, 2), (T + 2, T + 2), (3, 7), (2, -5), (T, T), (1, 5), (2, 3 * T + 1), (T + 3, 3)):
+        sp, of = npint(spacing), npint(offset)
+        judged_call(ctx, rng, 'thin(spacing>T / offset beyond spacing)', 'thin', lambda sp=sp, of=of: A.thin(sp, of), [A], refc.thin(MA, spacing, offset))
+    for n in sorted(set([1, 2, (T + 1) // 2, (T + 1) // 2 + 1, T])):
+        for periodic in (False, True):
+            nn = npint(n)
+            judged_call(ctx, rng, 'Hankel(boundary dimensions)', 'Hankel', lambda nn=nn, periodic=periodic: A.Hankel(nn, periodic), [A],
+                        refc.hankel(MA, n, periodic), context='undefined-slice' if has_undefined(MA) else ('periodic-true' if periodic else 'periodic-false'))
+    for t in (0, T - 1, -1, -T):
+        g = A[npint(t)]
+        e = refc.getitem(MA, t)
+        ctx.ev()
+        if not ((g is None and e is None) or g is e):
+            ctx.violation('index:__getitem__', {'T': T, 't': t, 'index_type': npint.__name__})
+    P = make_corr(ctx, rng, T, 1, 'real', str(rng.choice(MASKS)), lay)
+    MP = to_model(P)
+    for parity in (1.0, -1.0):
+        judged_call(ctx, rng, 'T_symmetry(parity as %s)' % type(parity).__name__, 'T_symmetry', lambda parity=parity: A.T_symmetry(P, parity), [A, P],
+                    refc.T_symmetry(MA, MP, int(parity)), hint=hint_global(MA, MP), context=context_of(MA, MP))
+    # parity as numpy integer: multiplies the partner by a numpy integer, which the arithmetic rejects (open cell 'npint'): counted
+    for parity in (np.int64(-1), np.int32(1)):
+        res, exc = run_twice(ctx, lambda parity=parity: A.T_symmetry(P, parity), [A, P], 'T_symmetry(numpy integer parity)')
+        if exc is not None:
+            report_raise(ctx, exc, 'T_symmetry', 'T_symmetry(numpy integer parity)', refc.T_symmetry(MA, MP, int(parity)), False, context_of(MA, MP))
+        else:
+            judge_corr(ctx, res, refc.T_symmetry(MA, MP, int(parity)), 'T_symmetry(numpy integer parity)', 'T_symmetry', hint=hint_global(MA, MP))
+    if T % 2 == 0:
+        judged_call(ctx, rng, 'symmetric(minimal T)' if T <= 4 else 'symmetric', 'symmetric', lambda: A.symmetric(), [A], refc.symmetric(MA), hint=hint_global(MA))
+        judged_call(ctx, rng, 'anti_symmetric', 'anti_symmetric', lambda: A.anti_symmetric(), [A], refc.anti_symmetric(MA), hint=hint_global(MA),
+                    context='undefined-slice-0' if MA[0] is None else context_of(MA))
+    N = int(rng.integers(2, 4))
+    G = make_corr(ctx, rng, T, N, 'real', mask, lay)
+    MG = to_model(G)
+    i, j = int(rng.integers(0, N)), int(rng.integers(0, N))
+    judged_call(ctx, rng, 'item(numpy integers)', 'item', lambda: G.item(np.int64(i), np.int32(j)), [G], refc.item(MG, i, j))
+    judged_call(ctx, rng, 'item(negative index)', 'item', lambda: G.item(-1, i), [G], refc.item(MG, N - 1, i))
+    ctx.cell('hard', 'boundary', 'T=%d' % T, mask)
+
+
+def hard_representation(ctx, rng, mask):
+    """item 1: the same content handed over in different memory layouts / containers / dtypes"""
+    T = int(rng.integers(2, 9))
+    N = int(rng.integers(1, 4))
+    lay = Layout(rng)
+    arr = np.empty((T, N, N), dtype=object)
+    vals = profile(rng, T, 'mixed')
+    for t in range(T):
+        for i in range(N):
+            for j in range(N):
+                arr[t, i, j] = lay.obs(rng, vals[t] * float(rng.uniform(0.5, 1.5)))
+    exp = [[[arr[t, i, j] for j in range(N)] for i in range(N)] for t in range(T)]
+    views = {'C-order': arr, 'F-order': np.asfortranarray(arr), 'transposed-view': arr.transpose(0, 2, 1),
+             'strided-view': np.concatenate([arr, arr])[::2] if T % 2 == 0 else arr[::1], 'reversed-view': arr[::-1]}
+    for name, v in views.items():
+        e = exp
+        if name == 'transposed-view':
+            e = [[[arr[t, j, i] for j in range(N)] for i in range(N)] for t in range(T)]
+        elif name == 'strided-view':
+            e = [exp[(2 * t) % T] for t in range(T)] if T % 2 == 0 else exp
+        elif name == 'reversed-view':
+            e = exp[::-1]
+        res, exc = run_twice(ctx, lambda v=v: PE.Corr(v), [v], 'Corr(3-d array, %s)' % name)
+        if exc is not None:
+            report_raise(ctx, exc, '__init__', 'Corr(3-d array, %s)' % name, e, True, 'operands-defined')
+            continue
+        judge_corr(ctx, res, e, 'Corr(3-d array, %s)' % name, '__init__')
+    # timeslice matrices that are transposed views / Fortran ordered, undefined slices in between; 1x1 matrices
+    defined, _ = none_mask(rng, T, mask if mask != 'padding' else 'interior')
+    ent = [None if not defined[t] else (arr[t].T if t % 2 else np.asfortranarray(arr[t])) for t in range(T)]
+    G = PE.Corr(list(ent))
+    eG = [None if not defined[t] else ([[arr[t, j, i] for j in range(N)] for i in range(N)] if t % 2 else exp[t]) for t in range(T)]
+    judge_corr(ctx, G, eG, 'Corr(list of non-contiguous matrices)', '__init__')
+    MG = to_model(G)
+    hg = hint_global(MG)
+    y = lay.obs(rng, 1.3)
+    judged_call(ctx, rng, '*(Corr,Obs) non-contiguous entries', '__mul__', lambda: G * y, [G, y], refc.binary_scalar(operator.mul, MG, y), hints=hints_per_t(MG, y))
+    judged_call(ctx, rng, '+(Corr,Corr) non-contiguous entries', '__add__', lambda: G + G.reverse(), [G], refc.binary(operator.add, MG, refc.reverse(MG)),
+                hints=hints_per_t(MG, refc.reverse(MG)))
+    judged_call(ctx, rng, 'sin non-contiguous entries', 'sin', lambda: np.sin(G), [G], refc.unary(np.sin, MG, isnan_scalar), hints=hints_per_t(MG))
+    judged_call(ctx, rng, 'roll non-contiguous entries', 'roll', lambda: G.roll(np.int64(-1)), [G], refc.roll(MG, -1))
+    M = rng.integers(-3, 4, size=(N, N))
+    M[M == 0] = 2
+    for mname, Mv in (('int64', M), ('Fortran float', np.asfortranarray(M.astype(float))), ('transposed view', M.astype(float).T.copy().T),
+                      ('float32', M.astype(np.float32))):
+        M0 = [[float(x) for x in row] for row in np.asarray(Mv)]
+        judged_call(ctx, rng, '@(Corr,ndarray %s)' % mname, '__matmul__', lambda Mv=Mv: G @ Mv, [G, Mv], refc.matmul_const(MG, M0), hint=(hg[0] * 4 * N, hg[1] * 4 * N))
+        judged_call(ctx, rng, '@(ndarray %s,Corr)' % mname, '__rmatmul__', lambda Mv=Mv: Mv @ G, [G, Mv], refc.matmul_const(MG, M0, const_left=True),
+                    hint=(hg[0] * 4 * N, hg[1] * 4 * N))
+    if N > 1:
+        big = rng.integers(1, 4, size=2 * N).astype(float) * rng.choice([-1.0, 1.0], size=2 * N)
+        for vname, v in (('int64', big[:N].astype(np.int64)), ('float32', big[:N].astype(np.float32)), ('strided view', big[::2]),
+                         ('negative stride', big[:N][::-1])):
+            v0 = [float(x) for x in v]
+            # single precision vectors: normalising them rounds to 1e-7, which is the caller's choice of precision - not normalised here
+            normalize = bool(rng.integers(0, 2)) and vname != 'float32'
+            judged_call(ctx, rng, 'projected(%s vector)' % vname, 'projected', lambda v=v, normalize=normalize: G.projected(v, normalize=normalize), [G, v],
+                        refc.projected(MG, v0, v0, normalize), hint=(hg[0] * 8 * N, hg[1] * 8 * N))
+    # containers the constructor does not accept must be rejected, not mis-read (counted)
+    for cname, bad in (('tuple', tuple(arr[:, 0, 0])), ('nested lists', [[[x for x in row] for row in arr[t]] for t in range(T)])):
+        try:
+            r = PE.Corr(bad)
+            ctx.count('constructor_accepted:' + cname)
+            if cname == 'tuple':
+                judge_corr(ctx, r, [[[arr[t, 0, 0]]] for t in range(T)], 'Corr(tuple)', '__init__')
+        except (TypeError, ValueError):
+            ctx.count('constructor_rejected:' + cname)
+    ctx.cell('hard', 'representation', 'N=%d' % N, mask)
+
+
+def hard_one_by_one(ctx, rng, mask):
+    """item 9: single-valued correlators whose timeslices are written as 1x1 matrices (as Hankel(1) returns them)"""
+    T = 2 * int(rng.integers(1, 6))
+    lay = Layout(rng)
+    B = make_corr(ctx, rng, T, 1, 'real', mask, lay, decorate=False)
+    MB = to_model(B)
+    how = int(rng.integers(0, 3))
+    if how == 0 and not has_undefined(MB):
+        a3 = np.empty((T, 1, 1), dtype=object)
+        for t in range(T):
+            a3[t, 0, 0] = MB[t][0][0]
+        A = PE.Corr(a3)
+    elif how == 1:
+        try:
+            A = B.Hankel(1, True)
+        except Exception:
+            A = PE.Corr([None if m is None else np.array([[m[0][0]]], dtype=object) for m in MB])
+    else:
+        A = PE.Corr([None if m is None else np.array([[m[0][0]]], dtype=object) for m in MB])
+    MA = to_model(A)
+    judge_corr(ctx, A, MB, 'Corr(1x1 matrices)', '__init__')
+    ctx_ = 'one-by-one-matrix-content'
+    y = lay.obs(rng, 0.8)
+    judged_call(ctx, rng, '+(Corr,Corr) 1x1', '__add__', lambda: A + A, [A], refc.binary(operator.add, MA, MA), hints=hints_per_t(MA), context=ctx_)
+    judged_call(ctx, rng, '+(Corr 1x1,Corr)', '__add__', lambda: A + B, [A, B], refc.binary(operator.add, MA, MB), hints=hints_per_t(MA), context=ctx_)
+    judged_call(ctx, rng, '/(Obs,Corr) 1x1', '__rtruediv__', lambda: y / A, [A, y], refc.binary_scalar(operator.truediv, MA, y, scalar_left=True, isnan=isnan_scalar),
+                hints=hints_per_t(MA, y), context=ctx_)
+    judged_call(ctx, rng, 'log 1x1', 'log', lambda: np.log(A), [A], refc.unary(np.log, MA, isnan_scalar), hints=hints_per_t(MA), context=ctx_)
+    judged_call(ctx, rng, 'roll 1x1', 'roll', lambda: A.roll(1), [A], refc.roll(MA, 1), context=ctx_)
+    judged_call(ctx, rng, 'reverse 1x1', 'reverse', lambda: A.reverse(), [A], refc.reverse(MA), context=ctx_)
+    judged_call(ctx, rng, 'thin 1x1', 'thin', lambda: A.thin(2, 1), [A], refc.thin(MA, 2, 1), context=ctx_)
+    judged_call(ctx, rng, 'Hankel(one-by-one-matrix-content)', 'Hankel', lambda: A.Hankel(2, True), [A], refc.hankel(MA, 2, True), context=ctx_)
+    judged_call(ctx, rng, 'symmetric 1x1', 'symmetric', lambda: A.symmetric(), [A], refc.symmetric(MA), hint=hint_global(MA), context=ctx_)
+    judged_call(ctx, rng, 'anti_symmetric 1x1', 'anti_symmetric', lambda: A.anti_symmetric(), [A], refc.anti_symmetric(MA), hint=hint_global(MA), context=ctx_)
+    judged_call(ctx, rng, 'T_symmetry 1x1', 'T_symmetry', lambda: A.T_symmetry(A), [A], refc.T_symmetry(MA, MA, 1), hint=hint_global(MA), context=ctx_)
+    ctx.cell('hard', 'one-by-one', mask)
+
+
+def hard_near_symmetric(ctx, rng, mask, k=0):
+    """items 3 / 6: matrices that are symmetric only in what a cheap key sees, at every scale.  k enumerates
+    (scale, asymmetry level, kind of asymmetry) systematically"""
+    T = int(rng.integers(2, 8))
+    N = int(rng.integers(2, 4))
+    lay = Layout(rng)
+    sc = [1e-8, 1.0, 1e8, 1e-4, 1e4][k % 5]
+    level = [0.3, 1e-3, 0.3, 1e-3, 1e-9][(k // 5) % 5]
+    only_fluctuations_differ = (k // 5) % 5 in (2, 3)
+    defined, _ = none_mask(rng, T, mask if mask != 'padding' else 'many')
+    mats = []
+    for t in range(T):
+        if not defined[t]:
+            mats.append(None)
+            continue
+        a = np.empty((N, N), dtype=object)
+        for i in range(N):
+            for j in range(i, N):
+                a[i, j] = lay.obs(rng, sc * float(rng.uniform(0.5, 2.0)))
+                if j > i:
+                    # same central value up to `level`, different fluctuations
+                    if only_fluctuations_differ:
+                        d = lay.obs(rng, 0.0, rel=0.0)            # mean ~ 0, fluctuations 1e-3
+                        a[j, i] = a[i, j] + (d - d.value) * (level * sc * 1e3)
+                    else:
+                        a[j, i] = a[i, j] * (1.0 + level)
+        mats.append(a)
+    G = PE.Corr(list(mats))
+    MG = to_model(G)
+    if level < 1e-6:
+        # asymmetry below single precision: whether such a matrix counts as symmetric is a borderline decision (not judged)
+        ctx.count('near_symmetric_borderline_not_judged')
+        quiet(ctx, lambda: G.matrix_symmetric(), 'matrix_symmetric')
+        return
+    got = quiet(ctx, lambda: G.is_matrix_symmetric(), 'is_matrix_symmetric')
+    ctx.equal(bool(got), False, 'index:is_matrix_symmetric', 'asymmetry %g at scale %g' % (level, sc))
+    judged_call(ctx, rng, 'matrix_symmetric(near-symmetric, scaled)', 'matrix_symmetric', lambda: G.matrix_symmetric(), [G],
+                refc.matrix_symmetric(MG), hint=hint_global(MG))
+    ctx.cell('hard', 'near-symmetric', 'scale=%g' % sc, 'level=%g' % level)
+
+
+HARD = [hard_same_operand, hard_same_entry, hard_held_results, hard_boundary, hard_representation, hard_one_by_one, hard_near_symmetric]
+
+
+def do_hard(ctx, rng, idx, mask):
+    ctx.count('hardening_scenarios')
+    f = HARD[idx % len(HARD)]
+    if f is hard_near_symmetric:
+        f(ctx, rng, mask, k=(idx // len(HARD)) * len(MASKS) + MASKS.index(mask))
+    else:
+        f(ctx, rng, mask)
+
+
+# ------------------------------------------------------------------------------------------
 FUNC_CELLS = [(f, s, n) for f in FUNCS for s in ('np', 'method') for n in (1, 2)]
 
 
@@ -1253,7 +1724,7 @@ def plan(tier):
     p = []
     for mask in MASKS:
         p += [('binop:' + mask, len(REQUIRED_CELLS) * m), ('func:' + mask, len(FUNC_CELLS) * m), ('index:' + mask, len(INDEX_KINDS) * 3 * m),
-              ('matmul:' + mask, 15 * m)]
+              ('matmul:' + mask, 15 * m), ('hard:' + mask, len(HARD) * 5 * m)]
     p += [('binop_open', len(OPEN_CELLS) * m), ('history', 100 * m), ('misc', 40 * m), ('gevp', 16 * m)]
     return p
 
@@ -1273,6 +1744,8 @@ def run_case(ctx, kind, idx, rng):
         do_matmul(ctx, rng, ['corr', 'right-array', 'left-array'][idx % 3], mask)
     elif kind == 'history':
         do_history(ctx, rng)
+    elif kind == 'hard':
+        do_hard(ctx, rng, idx, mask)
     elif kind == 'misc':
         do_misc(ctx, rng, idx)
     elif kind == 'gevp':
